@@ -25,7 +25,7 @@ from harness import tiled_helpers as th
 SD = SPEC / "tiled"
 DESIGN_REF = "DESIGN.md section 7 (C46); notes/C46.md"
 
-JO = ["-XX:TieredStopAtLevel=1"]      # short runs: skip the optimizing JIT
+JO = th.JO_FAST      # short runs: skip the optimizing JIT, small heap
 INV = ["TypeOK", "C46_RowsAtStop", "C46_RowsConserved", "C46_CacheBelowBatch", "C46_ConsumedOnceAtStop", "C46_RangesConserved",
        "C46_ArrayLengthAtStop", "C46_RowsCountConsumed"]
 
@@ -61,11 +61,11 @@ def run(ctx):
     jobs = {
         "events": lambda: run_tlc("TiledBatch", bcfg(ctx, "events.cfg", 5, 0, 4), spec_dir=SD, tag="C46a", timeout=3000, workers=1, java_opts=JO),
         "stream_datums": lambda: run_tlc("TiledBatch", bcfg(ctx, "sd.cfg", 0, 3 if q else 4, 4), spec_dir=SD, tag="C46b", timeout=3000,
-                                         workers=3 if q else "auto", java_opts=JO if q else None),
+                                         workers=3 if q else "auto", java_opts=JO if q else th.JO_BIG),
         "combined": lambda: run_tlc("TiledBatch", bcfg(ctx, "comb.cfg", 3 if q else 5, 2 if q else 4, 3 if q else 4), spec_dir=SD, tag="C46c", timeout=3000,
-                                    workers=3 if q else "auto", java_opts=JO if q else None),
+                                    workers=3 if q else "auto", java_opts=JO if q else th.JO_BIG),
         "cases": lambda: run_tlc("TiledBatch", bcfg(ctx, "cases.cfg", 2 if q else 4, 2 if q else 3, 2 if q else 4, canonical=True, constraints=["DumpCase"]),
-                                 spec_dir=SD, tag="C46d", timeout=3000, workers=1, java_opts=JO if q else None),
+                                 spec_dir=SD, tag="C46d", timeout=3000, workers=1, java_opts=JO if q else th.JO_BIG),
     }
     box = {}
 
